@@ -129,3 +129,13 @@ Proof.
   split; [exact ex5_frag2|]. split; [exact ex5_frag1|]. split; [exact ex5_enum|]. split; [exact ex5_nkeys|]. split; [exact ex5_nvalid|].
   split; [exact ex5_inj | exact ex5_complete].
 Qed.
+
+(** a derived factor in the sampled crossing: 96 candidates = 96 valid sequences; with an excluded source level 24 of 96 *)
+Example C05_example_derived :
+  frag2 ex6_flat = true /\ has_derived ex6_flat = true /\ enumerates_b ex6_flat = true /\ length (keys_of ex6_flat) = 96 /\
+  length (all_valid (code_sem ex6_flat)) = 96 /\ check_inj ex6_flat = true /\ check_complete ex6_flat = true /\
+  length (accepted_keys ex7_flat) = 24 /\ length (all_valid (code_sem ex7_flat)) = 24 /\ check_complete ex7_flat = true.
+Proof.
+  split; [exact ex6_frag2|]. split; [exact ex6_derived|]. split; [exact ex6_enum|]. split; [exact ex6_nkeys|]. split; [exact ex6_nvalid|].
+  split; [exact ex6_inj|]. split; [exact ex6_complete|]. split; [exact ex7_nacc|]. split; [exact ex7_nvalid | exact ex7_complete].
+Qed.
